@@ -284,7 +284,7 @@ def run(c):
 
     # ---- TV: random traces
     rnd = random.Random(c.seed)
-    ntr = 400 if quick else 6000
+    ntr = 300 if quick else 6000
     for i in range(ntr):
         batch.append(random_trace(c, rnd, ChunkStream, big=(i % 40 == 7)))
     slim = [{"buf": t["buf"], "src": t["src"],
